@@ -100,7 +100,7 @@ pub fn case_json(ctx: &NetCtx, f: &F, ck: Checks) -> Value {
         "net": ctx.b.spec,
         "aeon": ctx.b.aeon,
         "k": ctx.b.k,
-        "labels": {"wild": ctx.labels.wild, "dom": ctx.labels.dom, "desc": ctx.label_desc},
+        "labels": {"wild": ctx.labels.wild, "dom": ctx.labels.dom, "desc": ctx.label_desc, "wild_names": ctx.user.wilds, "dom_names": ctx.user.doms},
         "formula": f,
         "text": f.show(&ctx.user),
         "semantic": ck.semantic,
@@ -120,6 +120,13 @@ pub fn replay(case: &Value) -> Option<String> {
     let wild: Vec<Vec<Mask>> = serde_json::from_value(case["labels"]["wild"].clone()).ok()?;
     let dom: Vec<Vec<Mask>> = serde_json::from_value(case["labels"]["dom"].clone()).ok()?;
     let ctx = NetCtx::new(b, Labels { wild, dom, props: vec![] }, case["labels"]["desc"].as_str().unwrap_or(""));
+    let ctx = match (serde_json::from_value::<Vec<String>>(case["labels"]["wild_names"].clone()), serde_json::from_value::<Vec<String>>(case["labels"]["dom_names"].clone())) {
+        (Ok(w), Ok(d)) if w != ctx.user.wilds || d != ctx.user.doms => {
+            let (w, d): (Vec<&str>, Vec<&str>) = (w.iter().map(|s| s.as_str()).collect(), d.iter().map(|s| s.as_str()).collect());
+            ctx.with_label_names(&w[..ctx.labels.wild.len().min(w.len())], &d[..ctx.labels.dom.len().min(d.len())])
+        }
+        _ => ctx,
+    };
     let f: F = serde_json::from_value(case["formula"].clone()).ok()?;
     let ck = Checks {
         semantic: case["semantic"].as_bool()?,
